@@ -487,9 +487,15 @@ const (
 )
 
 func (s *ShortestPathSearch) ExpandSearchTo(to b6.FeatureID, maxDistance float64, weights Weights, w b6.World) {
-	destination := &reachable{point: to, distance: math.Inf(1)}
-	s.byPoint[to] = destination
-	heap.Push(s, destination)
+	// Only add a placeholder for the destination if the search hasn't reached it
+	// already: replacing the entry of a known point (eg the origin itself) left the
+	// original in the queue, and recorded an infinite distance for the point.
+	destination, ok := s.byPoint[to]
+	if !ok {
+		destination = &reachable{point: to, distance: math.Inf(1)}
+		s.byPoint[to] = destination
+		heap.Push(s, destination)
+	}
 	for s.Len() > 0 {
 		r := heap.Pop(s).(*reachable)
 		s.byPoint[r.point].visited = true
